@@ -345,11 +345,27 @@ def extra_scenarios(ctx, count):
     return out
 
 
+def run_resultschan(ctx, rc_cases):
+    obs = vlib.run_vh(ctx, "resultschan", rc_cases, timeout=900)
+    for c in rc_cases:
+        o = obs[c["id"]]
+        ctx.count("resultschan:" + json.dumps(c["order"]), nontrivial=c["order"][1]["inflight"] > 0 or c["order"][0]["inflight"] > 0)
+        ctx.traces_validated += 1
+        if not (o["fetchReturned"] and o["closedForDisplay"] and o["mutexFreeAfterwards"]):
+            ctx.violation("C05 invocation-does-not-terminate display-blocked-after-results-closed",
+                          dict(resultschan=True, case=c, observed=o))
+
+
 def common(ctx, prop):
     vlib.build_plz()
     if ctx.replay_only is not None:
         cases = []
+        rc = [dict(d["case"], id=i) for i, d in enumerate(x for x in ctx.replay_only if x.get("resultschan"))]
+        if rc:
+            run_resultschan(ctx, rc)
         for d in ctx.replay_only:
+            if d.get("resultschan"):
+                continue
             sc = dict(d["scenario"])
             sc["threads"] = d.get("threads")
             sc["pkgs"] = d.get("pkgs")
@@ -380,6 +396,18 @@ def common(ctx, prop):
                 vlib.tlc(ctx, "ParseSched", "MC_ParseSched_missing.cfg", timeout=900)
             wp = vlib.tlc(ctx, "ParseSched", "MC_ParseSched_waitparses.cfg", timeout=900, allow_violation=True)
             ctx.extra["model_waiting_for_parse_goroutines_counterexample"] = wp.invariant
+            # design level, end of the invocation: forwarder / display / close of the results channel (ResultsChan.tla), and the
+            # same orders driven through the real BuildState
+            vlib.tlc(ctx, "ResultsChan", "MC_ResultsChan.cfg", timeout=600)
+            rf = vlib.tlc(ctx, "ResultsChan", "MC_ResultsChan_flaw.cfg", timeout=600, allow_violation=True)
+            ctx.extra["model_panic_holds_lock_counterexample"] = rf.invariant
+            rc_cases, seen = [], set()
+            for c in vlib.tlc(ctx, "ResultsChan", "GEN_ResultsChan.cfg", timeout=600).cases:
+                k = json.dumps(c, sort_keys=True)
+                if k not in seen:
+                    seen.add(k)
+                    rc_cases.append(dict(c, id=len(rc_cases)))
+            run_resultschan(ctx, rc_cases)
             # parse-time faults (undefined dependency, missing package, BUILD-file error): property-level scenarios
             pf = []
             for cfg in (("GEN_SchedScenarios_2.cfg", "GEN_SchedScenarios_kg_2.cfg") if ctx.quick else ("GEN_SchedScenarios.cfg", "GEN_SchedScenarios_kg.cfg")):
